@@ -1146,7 +1146,68 @@ def validate_models(w):
     return all(v == exp for v in res.values()), f"real solver: {res}, expected {exp}"
 
 
-HANDLERS = {"models": replay_models, "shave": replay_shave, "prop": replay_prop, "heur": replay_heur, "split": replay_split, "reducer": replay_reducer, "stack": replay_stack, "solve": replay_solve, "varheur": replay_varheur, "lemma": replay_lemma}
+def replay_build(r):
+    """the same calls on the real Problem with the witness values; fields compared with what was given, and the built
+    problem enumerated by the real solver against brute force (each assignment exactly once)"""
+    import itertools
+
+    from nucs.problems.problem import Problem
+    from nucs.solvers.backtrack_solver import BacktrackSolver
+    from nusym.h_build_scenarios import SCENARIOS
+
+    sc = SCENARIOS[r["scenario"]]
+    D = {k: tuple(v) for k, v in r["doms"].items()}
+    # keep the enumeration small: shrink every domain to at most 2 values
+    D = {k: (a, min(b, a + 1)) for k, (a, b) in D.items()}
+    o = r["o"]
+    off = lambda x: o if x == "o" else x  # noqa: E731
+    doms, idx, offs = sc["ctor"]
+    pb = Problem([D[n] for n in doms], None if idx is None else list(idx), None if offs is None else [off(x) for x in offs])
+    e_doms = list(doms)
+    e_vars = [(i, 0) for i in range(len(doms))] if idx is None else [(i, off(x)) for i, x in zip(idx, offs)]
+    returned, e_returned = [], []
+    for call in sc["calls"]:
+        e_returned.append(len(e_vars))
+        if call[0] == "add_variable":
+            _, d, di, do = call
+            returned.append(pb.add_variable(D[d], di, None if do is None else off(do)))
+            e_doms.append(d)
+            e_vars.append((len(e_doms) - 1 if di is None else di, 0 if do is None else off(do)))
+        else:
+            _, ds, dis, dos = call
+            returned.append(pb.add_variables([D[d] for d in ds], None if dis is None else list(dis), None if dos is None else [off(x) for x in dos]))
+            for k, d in enumerate(ds):
+                e_doms.append(d)
+                e_vars.append((len(e_doms) - 1 if dis is None else dis[k], 0 if dos is None else off(dos[k])))
+    fails = set()
+    if list(pb.dom_indices_lst) != [i for i, _ in e_vars]:
+        fails.add("domain-index-not-as-given")
+    if list(pb.dom_offsets_lst) != [e for _, e in e_vars]:
+        fails.add("offset-not-as-given")
+    if pb.shr_domain_nb != len(pb.shr_domains_lst):
+        fails.add("shared-domain-count-wrong")
+    if [int(x) for x in returned] != e_returned:
+        fails.add("returned-index-is-not-the-variable")
+    info = ""
+    # semantic: the assignments of the model as written = product over the shared domains actually used, each exactly once
+    used = sorted({i for i, _ in e_vars})
+    expected = sorted(tuple(vals[used.index(i)] + e for i, e in e_vars) for vals in itertools.product(*[range(D[e_doms[i]][0], D[e_doms[i]][1] + 1) for i in used]))
+    try:
+        got = sorted(tuple(int(v) for v in s) for s in BacktrackSolver(pb, log_level="CRITICAL").solve())
+        if got != expected:
+            if len(set(got)) != len(got) and sorted(set(got)) == expected:
+                fails.add("orphan-shared-domain-multiplies-solutions")
+            else:
+                fails.add("variable-ranges-over-another-domain")
+                fails.add("domain-index-not-as-given")
+            info = f"enumeration {got[:6]}... ({len(got)}) vs model as written {expected[:6]}... ({len(expected)})"
+    except Exception as e:  # noqa
+        info = f"solver raised {type(e).__name__}: {e}"
+        fails.add("solver-raises")
+    return r["kind"] in fails, f"failures={sorted(fails)} {info}"
+
+
+HANDLERS = {"models": replay_models, "shave": replay_shave, "prop": replay_prop, "heur": replay_heur, "split": replay_split, "reducer": replay_reducer, "stack": replay_stack, "solve": replay_solve, "varheur": replay_varheur, "lemma": replay_lemma, "build": replay_build}
 
 
 def validate_prop(w):
